@@ -4,9 +4,16 @@ Impl model: `Goyang.Model.Lex`, `Goyang.Model.Parse`; reference reader: `Goyang.
 -/
 import Goyang.Model.Parse
 import Goyang.Spec.Parse
+import Goyang.Lemmas.Parse
 
 namespace Goyang.Props.C02
 open Goyang.Model Goyang.Model.Parse
+
+/-- `yang.Parse` as modelled is total on arbitrary bytes (also ill-formed UTF-8): with the fuel the
+model supplies no loop of lexer or parser runs dry, no slice is taken out of range and the cursor
+never leaves the input.  (This is the lexer/parser part of C01 as well.) -/
+theorem parse_no_fault (file text : List UInt8) (f : Lex.Fault) : parseText file text ≠ .fault f :=
+  Goyang.Lemmas.Parse.parseText_no_fault file text f
 
 /-- On rejection the error is non-empty (and, `ParseResult` being a sum, no statements are returned). -/
 theorem rejected_nonempty (file text : List UInt8) (errs : List Lex.ErrLine)
@@ -25,5 +32,14 @@ theorem rejected_nonempty (file text : List UInt8) (errs : List Lex.ErrLine)
         intro he
         apply hne
         simp [he]
+
+/-- The result is either a forest or a non-empty list of error lines. -/
+theorem parse_ok_or_rejected (file text : List UInt8) :
+    (∃ forest, parseText file text = .ok forest) ∨
+    (∃ errs, errs ≠ [] ∧ parseText file text = .rejected errs) := by
+  cases h : parseText file text with
+  | ok forest => exact Or.inl ⟨forest, rfl⟩
+  | rejected errs => exact Or.inr ⟨errs, rejected_nonempty file text errs h, rfl⟩
+  | fault f => exact absurd h (parse_no_fault file text f)
 
 end Goyang.Props.C02
